@@ -19,9 +19,13 @@ IniFile::IniFile(const String& fname, bool shouldwrite)
 	_lines.reserve(16);
 	_ok = true;
 	Section* cursection = &_sections[NOSECTION];
+	bool firstLine = true;
 	while(!file.end())
 	{
 		String line=file.readLine();
+		if (firstLine && line.startsWith("\xef\xbb\xbf")) // a UTF-8 byte order mark is not part of the first line
+			line = line.substring(3);
+		firstLine = false;
 		if (shouldwrite)
 			_lines << line;
 		if(!line.ok())
